@@ -19,11 +19,19 @@ class NativeResult:
         self.failures = []  # (label, detail)
         self.outcome = None
         self.checked = 0
+        self.case = None
 
 
 def nview(v):
     if isinstance(v, list):
         return NView(list(v), ref=v)
+    tn = type(v).__name__
+    if tn in ("Row", "Table") and hasattr(v, "_indexes"):
+        from .xmlnative import NVaultView
+        return NVaultView(v)
+    if tn in ("Cell", "Column"):
+        from .xmlnative import NWrapView
+        return NWrapView(v)
     return v
 
 
@@ -33,7 +41,7 @@ def native_eval(con: Contract, argvals: dict, labels=None) -> NativeResult:
     if con.call_native is not None:
         return con.call_native(con, None, argvals, labels)
     fn, _node, _mod, _info = resolve_target(con.target)
-    args = {k: copy.deepcopy(v) for k, v in argvals.items()}
+    args = {k: (copy.deepcopy(v) if isinstance(v, (list, dict, set)) else v) for k, v in argvals.items()}
     pre = Args({k: nview(v) for k, v in args.items()})
     try:
         if con.requires is not None and not con.requires(pre):
@@ -43,8 +51,15 @@ def native_eval(con: Contract, argvals: dict, labels=None) -> NativeResult:
         res.in_domain = False
         res.outcome = f"requires raised {type(e).__name__}: {e}"
         return res
+    for cname, cpred in con.cases.items():
+        try:
+            if cpred(pre):
+                res.case = cname
+                break
+        except Exception:  # noqa
+            pass
     # the contract's pre views are snapshots; call on the live objects
-    snap = Args({k: (NView(list(v), ref=v) if isinstance(v, list) else v) for k, v in args.items()})
+    snap = Args({k: nview(v) for k, v in args.items()})
     try:
         out = fn(**args)
         raised = None
